@@ -22,6 +22,7 @@ def data_desc(d):
            "finite": bool(np.all(np.isfinite(d))) if d.dtype.kind == "f" else True}
     if d.ndim == 2 and d.shape[1] == 2 and d.shape[0] > 1:
         out["x_increasing"] = bool(np.all(np.diff(d[:, 0]) > 0))
+        out["col_sha"] = [hashlib.sha256(np.ascontiguousarray(d[:, j]).tobytes()).hexdigest()[:24] for j in (0, 1)]
     return out
 
 
